@@ -45,6 +45,8 @@ def scenarios(tier, seed):
     for m in ["RK45CK", "DOPRI45", "RK87"] + (["AHE", "RK108"] if thorough else []):
         for (a, b) in ((0.0, 1.0), (0.0, -1.0), (0.25, 1.0)):
             for tol in (1e-5, 1e-8):
+                if m == "AHE" and tol < 1e-6:
+                    continue      # second order pair: tens of thousands of steps, beyond the monitor's event budget
                 scs.append(gen.base(m, a, b, 0.2, rtol=tol, atol=tol, problem="steeplate", y0=[1.0], budget=1000000))
     # tolerances that cannot be met: the right-hand side is undefined beyond |t| = 1/2
     for m in ["RK45CK", "DOPRI45", "RK87", "RadauIIA5", "AHE"] + (["RK108", "LobattoIIIC4"] if thorough else []):
@@ -65,6 +67,7 @@ def _accuracy_job(job):
         rtol, atol = tol, tol * 1e-9
         y0 = [2.0 ** -20]
     sc = gen.base(m, 0.0, T, dt0, rtol=rtol, atol=atol, problem=case["problem"], y0=y0)
+    rtol, atol = sc["rtol"], sc["atol"]      # gen.base bounds the tolerance per method
     try:
         r = scen.run_plain(sc)
     except Exception as e:   # noqa
@@ -100,6 +103,7 @@ def check(run, replay=None):
         if thorough:
             core.model_check("IntegratorMC", "Integrator_dev1", expect_violation="RetryShrinks", workers=2)
             core.model_check("IntegratorMC", "Integrator_dev2", expect_violation="NeverReturnRejectedOrUnconverged", workers=2)
+            core.model_check("OdeSystemMC", "OdeSystem_devRecordStepTooShort", expect_violation="SegmentMonotone")
         scs = scenarios(run.tier, run.seed)
         gen_cases = run.generate("Accuracy")["cases"]
         meths = ["RK45CK", "DOPRI45", "RK87", "LobattoIIIC4", "RadauIIA5", {"rich": "RK4", "levels": 3}]
@@ -109,10 +113,13 @@ def check(run, replay=None):
         for c in gen_cases:
             for m in meths:
                 for tol in ((1e-3, 1e-6, 1e-9) if not thorough else (1e-3, 1e-5, 1e-7, 1e-9, 1e-11)):
-                    if m == "AHE" and tol < 1e-6:
+                    if tol < gen.tol_floor(m):
                         continue
                     for dt0 in ((1e-4, 0.25, 5.0) if thorough else ((0.25, 5.0) if tol > 1e-8 else (1e-4, 0.25))):
                         jobs.append((c, m, tol, dt0))
+            if not thorough:
+                # a first attempt of half the span overflows in the stages of the 35-stage pair: the retries must recover (finding f25)
+                jobs.append((c, "RK1412", 1e-6, 5.0))
     if scs:
         traces = odecore.run_traces(scs)
         for sc, tr in zip(scs, traces):
